@@ -678,12 +678,20 @@ static bool call_external(State &s, const CallInst *ci, const std::string &name,
             z3::expr mag = *r.value; unsigned mb = mag.get_sort().bv_size();
             z3::expr m64 = mb < 64 ? z3::zext(mag, 64 - mb) : mag;
             z3::expr v = neg ? -m64 : m64;
+            if (mb == 64 && name != "strtoul" && name != "strtoull")
+            {
+              // glibc saturates: LLONG_MAX / LLONG_MIN when the digits exceed the signed range
+              z3::expr maxp = Z.bv_val((uint64_t)0x7fffffffffffffffULL, 64), minn = Z.bv_val((uint64_t)0x8000000000000000ULL, 64);
+              v = neg ? z3::ite(z3::ugt(m64, minn), minn, -m64) : z3::ite(z3::ugt(m64, maxp), maxp, m64);
+            }
             ret_val(mk_sym(rb, rb < 64 ? v.extract(rb - 1, 0) : v));
             if (is_strto && args[1].isptr && args[1].obj >= 0) { Val e = args[0]; e.c += j; do_store(s, args[1], e, 64); }
             return true;
           }
     }
-    z3::expr acc = Z.bv_val(0, 64); bool allc = true; uint64_t cv = 0;
+    // wide accumulator only when the digit count could overflow 63 bits: saturation (glibc strtoll) is decided on the exact value
+    const unsigned AW = (a.size() - i > 18 || base != 10) ? 80 : 64;
+    z3::expr acc = Z.bv_val(0, AW); bool allc = true; unsigned __int128 cv = 0; bool cv_sat = false;
     for (; i < a.size(); i++)
     {
       if (a[i].k == BK_CONC)
@@ -691,7 +699,8 @@ static bool call_external(State &s, const CallInst *ci, const std::string &name,
         int d = -1; uint8_t ch = a[i].c;
         if (ch >= '0' && ch <= '9') d = ch - '0'; else if (ch >= 'a' && ch <= 'z') d = ch - 'a' + 10; else if (ch >= 'A' && ch <= 'Z') d = ch - 'A' + 10;
         if (d < 0 || d >= (int)base) break;
-        cv = cv * base + d; acc = acc * Z.bv_val(base, 64) + Z.bv_val((uint64_t)d, 64); continue;
+        cv = cv * base + d; if (cv >> 70) { cv_sat = true; cv = 0; }
+        acc = acc * Z.bv_val(base, AW) + Z.bv_val((uint64_t)d, AW); continue;
       }
       if (base != 10) die("%s: symbolic digits in base %u", name.c_str(), base);
       z3::expr isd = z3::uge(*a[i].e, Z.bv_val('0', 8)) && z3::ule(*a[i].e, Z.bv_val('9', 8));
@@ -699,12 +708,25 @@ static bool call_external(State &s, const CallInst *ci, const std::string &name,
       if (md && mn) { ForkReq fr; fr.alts.push_back(isd); fr.alts.push_back(!isd); throw fr; }
       if (!md) break;
       allc = false;
-      acc = acc * Z.bv_val(10, 64) + z3::zext(*a[i].e - Z.bv_val('0', 8), 56);
+      acc = acc * Z.bv_val(10, AW) + z3::zext(*a[i].e - Z.bv_val('0', 8), AW - 8);
     }
+    if (i - start > 23) die("%s: more than 23 digits", name.c_str());
     if (is_strto && args[1].isptr && args[1].obj >= 0) { Val e = args[0]; if (!e.conc) die("strtol on symbolic pointer"); e.c += (i == start ? 0 : i); do_store(s, args[1], e, 64); }
-    // overflow behaviour (saturation / UB for atoi) is outside the model: results are computed modulo 2^64
-    if (allc) { uint64_t v = neg ? (uint64_t)0 - cv : cv; ret_int(v); return true; }
-    z3::expr r = neg ? -acc : acc;
+    // glibc semantics (strtol/strtoll saturate to LONG_MAX/LONG_MIN, strtoul to ULONG_MAX; atoi/atol/atoll are strtol casts)
+    bool uns = name == "strtoul" || name == "strtoull";
+    unsigned __int128 maxp = uns ? (unsigned __int128)0xffffffffffffffffULL : (unsigned __int128)0x7fffffffffffffffULL;
+    unsigned __int128 maxn = uns ? maxp : (unsigned __int128)0x8000000000000000ULL;
+    if (allc)
+    {
+      uint64_t v;
+      if (!neg) v = (cv_sat || cv > maxp) ? (uint64_t)maxp : (uint64_t)cv;
+      else v = (cv_sat || cv > maxn) ? (uns ? (uint64_t)maxp : 0x8000000000000000ULL) : (uint64_t)0 - (uint64_t)cv;
+      ret_int(v); return true;
+    }
+    z3::expr lim = Z.bv_val((uint64_t)(neg ? maxn : maxp), 64);
+    z3::expr over = AW > 64 ? z3::ugt(acc, z3::zext(lim, AW - 64)) : z3::ugt(acc, lim);
+    z3::expr low = AW > 64 ? acc.extract(63, 0) : acc;
+    z3::expr r = neg ? z3::ite(over, uns ? Z.bv_val((uint64_t)maxp, 64) : Z.bv_val((uint64_t)0x8000000000000000ULL, 64), -low) : z3::ite(over, lim, low);
     ret_val(mk_sym(rb, rb < 64 ? r.extract(rb - 1, 0) : r)); return true;
   }
   if (name == "atof" || name == "strtod")
